@@ -174,7 +174,7 @@ Fixpoint sortedb (b : batch) : bool :=
   end.
 
 (** well-formed at height h: a leaf's remaining key has length h, interior nodes only above 0 *)
-Fixpoint wf (h : nat) (t : tree) : Prop :=
+Fixpoint wf (h : nat) (t : tree) {struct t} : Prop :=
   match t with
   | E => True
   | Lf k _ => length k = h
